@@ -3,15 +3,21 @@ import CnbVerif.Model.Ident
 import CnbVerif.Model.Version
 import CnbVerif.Spec.Grammar
 /-!
-Driver glue for C09. Fields: `<kind> <payload>`.
+Driver glue for C09. Fields: `<kind> <string> <extra>`; `<string>` = hex code points joined by `,` (`-` = empty, the field
+`./check` shrinks), `<extra>` = `-` when unused.
 
-* kind `layer | process | bpid | execd`, payload = the input string as hex code points joined by `,` (`-` = empty).
-  Observation `p=<r>;t=<r>` (`str::parse`, TOML deserialisation) with `<r>` = `err` or `ok:<Display>:<Serialize>` (code points).
-* kind `mlayer | mprocess | mbpid | mexecd`, payload = a batch of literals, joined by `/`, code points joined by `.`.
-  Observation: one `1`/`0` per literal (the literal macro compiled / was rejected with `compile_error!`).
-* kind `version | api`, payload = input string. Observation `p=<r>;t=<r>` (`TryFrom<String>`, TOML deserialisation) with
+* kind `layer | process | bpid | execd`: `<string>` is the input. Observation `p=<r>;t=<r>` (`str::parse`, TOML
+  deserialisation) with `<r>` = `err` or `ok:<Display>:<Serialize>` (code points).
+* kind `version | api`: `<string>` is the input. Observation `p=<r>;t=<r>` (`TryFrom<String>`, TOML deserialisation) with
   `<r>` = `err` or `ok:<numbers joined by .>:<Display>:<numbers of the re-parsed Display | err>`.
-* kind `vtriple | apair`, payload = u64 numbers joined by `.`. Observation `d=<Display>;r=<numbers of the parsed Display | err>`.
+* kind `mlayer | mprocess | mbpid | mexecd`: `<extra>` = a batch of literals joined by `/`, code points joined by `.`.
+  Observation: one `1`/`0` per literal (the literal macro compiled / was rejected with `compile_error!`).
+* kind `xlayer | … | xversion | xapi`: `<string>` = a prefix, `<extra>` = `<alphabet code points joined by .>|<depth>`: all
+  strings prefix ++ suffix with suffixes of length ≤ depth over the alphabet (by length, then alphabet order). Observation:
+  one class per string: `0` rejected, `1` accepted and displayed as the input, `2` accepted and displayed differently.
+* kind `vtriple | apair`: `<extra>` = u64 numbers joined by `.`. Observation `d=<Display>;r=<numbers of the parsed Display | err>`.
+
+The verdict is computed from `Spec/Grammar.lean` only (never from the model).
 -/
 namespace CnbVerif.DriverC09
 open CnbVerif
